@@ -1,10 +1,15 @@
 (* RunC09.v -- runner for C09.  Cases (see harness/src/bin/c09.rs):
      (case stream <st> <orc> <expect> xNEW) | (case row t bpp xPREV xCUR <expect>) | (case frame bpp ppr xC <expect>)
      | (case paeth lo hi) | (case doc <doc> (nocomp (i g)...) <orc>)
+     | (case lzwrt ec limit xDATA (encs xE...)) | (case lzwdec ec xE) | (case zrt k xDATA (encs xE...)) | (case zdec xE)
+       : the executable codecs of Spec/LzwSpec.v and Spec/Inflate.v against weezl and flate2 (the encoders' output for
+         DATA, and the decoders' answers on the streams E: the spec's own, the crates', the Python references')
+     | (case lzwenc ec limit xDATA) | (case zenc k xDATA) : generator queries, answered by the spec encoders only
    The third-party oracles are instantiated by the table <orc> = (orc (tag xIN xOUT)...), tags f / l0 / l1 / z,
    which the generator fills with reference answers (Python zlib, reference LZW) or with flate2's / weezl's own
    answers (harness oracle mode).  A missing entry yields the bytes "ORACLE-MISS", which can never agree. *)
 From LV Require Import Base.Bytes Base.Sx Model.Obj Gen.Filters Model.A85 Model.Png Model.StreamFilt.
+From LV Require Spec.LzwSpec Spec.Inflate Spec.ZlibStoredSpec.
 
 Definition orc := list (bytes * bytes * bytes).
 
@@ -103,6 +108,73 @@ Definition set_objects (d : doc) (m : objmap) : doc :=
   {| d_version := d_version d; d_binary_mark := d_binary_mark d; d_trailer := d_trailer d;
      d_objects := m; d_max_id := d_max_id d |}.
 
+(* ---- the executable codecs of Spec/LzwSpec.v and Spec/Inflate.v ---- *)
+Definition obytes_sx (r : option bytes) : sx :=
+  match r with Some b => SL [sx_id "ok"; sx_bytes b] | None => sx_id "err" end.
+
+Definition encs_of_sx (x : sx) : option (list bytes) :=
+  match x with SL (_ :: es) => omap as_bytes es | _ => None end.
+
+Definition run_codec (kind : bytes) (args : list sx) : sx :=
+  if bytes_eqb kind (bs "lzwenc") then
+    match args with
+    | [ex; lx; dx] =>
+      match as_N ex, as_N lx, as_bytes dx with
+      | Some e, Some limit, Some data => SL [sx_id "lzwenc"; sx_bytes (LzwSpec.lzw_encode_lim limit (negb (e =? 0)%N) data)]
+      | _, _, _ => sx_id "badcase"
+      end
+    | _ => sx_id "badcase"
+    end
+  else if bytes_eqb kind (bs "lzwrt") then
+    match args with
+    | [ex; lx; dx; encs] =>
+      match as_N ex, as_N lx, as_bytes dx, encs_of_sx encs with
+      | Some e, Some limit, Some data, Some es =>
+        let ec := negb (e =? 0)%N in
+        SL (sx_id "lzwrt" :: sx_bytes (LzwSpec.lzw_encode_lim limit ec data) :: map (fun x => obytes_sx (LzwSpec.lzw_decode ec x)) es)
+      | _, _, _, _ => sx_id "badcase"
+      end
+    | _ => sx_id "badcase"
+    end
+  else if bytes_eqb kind (bs "lzwdec") then
+    match args with
+    | [ex; dx] =>
+      match as_N ex, as_bytes dx with
+      | Some e, Some data => SL [sx_id "lzwdec"; obytes_sx (LzwSpec.lzw_decode (negb (e =? 0)%N) data)]
+      | _, _ => sx_id "badcase"
+      end
+    | _ => sx_id "badcase"
+    end
+  else if bytes_eqb kind (bs "zenc") then
+    match args with
+    | [kx; dx] =>
+      match as_N kx, as_bytes dx with
+      | Some k, Some data => SL [sx_id "zenc"; sx_bytes (ZlibStoredSpec.zlib_stored k data)]
+      | _, _ => sx_id "badcase"
+      end
+    | _ => sx_id "badcase"
+    end
+  else if bytes_eqb kind (bs "zrt") then
+    match args with
+    | [kx; dx; encs] =>
+      match as_N kx, as_bytes dx, encs_of_sx encs with
+      | Some k, Some data, Some es =>
+        SL (sx_id "zrt" :: sx_bytes (ZlibStoredSpec.zlib_stored k data) :: map (fun x => obytes_sx (Inflate.inflate x)) es)
+      | _, _, _ => sx_id "badcase"
+      end
+    | _ => sx_id "badcase"
+    end
+  else if bytes_eqb kind (bs "zdec") then
+    match args with
+    | [dx] =>
+      match as_bytes dx with
+      | Some data => SL [sx_id "zdec"; obytes_sx (Inflate.inflate data)]
+      | None => sx_id "badcase"
+      end
+    | _ => sx_id "badcase"
+    end
+  else sx_id "badcase".
+
 Definition run (x : sx) : sx :=
   match x with
   | SL (_ :: SA kind :: args) =>
@@ -161,7 +233,7 @@ Definition run (x : sx) : sx :=
         end
       | _ => sx_id "badcase"
       end
-    else sx_id "badcase"
+    else run_codec kind args
   | _ => sx_id "badcase"
   end.
 
